@@ -4,7 +4,7 @@ SPEC = {
     "lean_project": "AgdbCodec",
     "props_module": "AgdbCodec.Props.C22",
     "audit_file": "AgdbCodec/Audit/C22.lean",
-    "full_theorems": ["C22_roundtrip", "C22_from_to_db_values", "C22_update_by_id", "C22_update_readback",
+    "full_theorems": ["C22_roundtrip", "C22_from_to_db_values", "C22_update_by_id", "C22_update_roundtrip", "C22_update_readback",
                       "kindOk_custom", "kindOk_vi64"],
     "partial_theorems": [],
     "counterexamples": ["C22_flatten_keys_counterexample"],
